@@ -42,13 +42,15 @@ def ignore_copy(func: Callable[[T_Self, str], T_Retval]) -> Callable[[T_Self, st
     """
 
     def _getattr(self: T_Self, name: str) -> T_Retval:
+        # no special method or attribute is a column: copy, deepcopy and every pickle protocol probe for several
+        # (__slots__, __reduce_ex__ helpers, ...) and must be told they are missing
         if name in [
             "__copy__",
             "__deepcopy__",
             "__getstate__",
             "__setstate__",
             "__getnewargs__",
-        ]:
+        ] or (name.startswith("__") and name.endswith("__")):
             raise AttributeError(
                 "'%s' object has no attribute '%s'" % (self.__class__.__name__, name)
             )
